@@ -536,6 +536,33 @@ impl<'a> Evaluator<'a> {
             }
             return;
         }
+        // `if let Some(x) = place.iter_mut().find(|e| ..)`: `x` aliases the first element the predicate accepts
+        if let (syn::Expr::MethodCall(mc), syn::Pat::TupleStruct(ts)) = (scrutinee, pat) {
+            if mc.method == "find" && mc.args.len() == 1 && ts.elems.len() == 1 && tok(&ts.path) == "Some" {
+                if let (syn::Expr::MethodCall(im), syn::Pat::Ident(pi)) = (&*mc.receiver, &ts.elems[0]) {
+                    if im.method == "iter_mut" && im.args.is_empty() {
+                        if let Some(place) = self.place_of(&im.receiver) {
+                            let list = match place_get_mut(env, &place) { Some(Val::List(l)) => l.clone(), _ => return };
+                            let mut idx = None;
+                            for (i, el) in list.iter().enumerate() {
+                                if matches!(self.apply_closure(&mc.args[0], &[el.clone()], env), Ok(Val::Bool(true))) {
+                                    idx = Some(i);
+                                    break;
+                                }
+                            }
+                            if let (Some(i), Some(nv)) = (idx, arm_env.get(&pi.ident.to_string()).cloned()) {
+                                if let Some(Val::List(l)) = place_get_mut(env, &place) {
+                                    if i < l.len() {
+                                        l[i] = nv;
+                                    }
+                                }
+                            }
+                        }
+                        return;
+                    }
+                }
+            }
+        }
         match (scrutinee, pat) {
             (syn::Expr::Tuple(t), syn::Pat::Tuple(pt)) if t.elems.len() == pt.elems.len() => {
                 for (e, p) in t.elems.iter().zip(pt.elems.iter()) {
@@ -1163,6 +1190,23 @@ impl<'a> Evaluator<'a> {
                 match (self.call_hook)(self, &format!("{}()", name), &args) {
                     Some(r) => r,
                     None => Ok(Val::Opaque(format!("call {}", tok(&c.func)))),
+                }
+            }
+            // std::mem::take(&mut place[i]): the element is taken, its default stays in the list
+            Expr::Call(c) if { let t = tok(&c.func); t == "std::mem::take" || t == "mem::take" || t == "core::mem::take" } && c.args.len() == 1
+                && matches!(&c.args[0], Expr::Reference(r) if matches!(&*r.expr, Expr::Index(ix) if self.place_of(&ix.expr).is_some())) =>
+            {
+                let Expr::Reference(r) = &c.args[0] else { unreachable!() };
+                let Expr::Index(ix) = &*r.expr else { unreachable!() };
+                let place = self.place_of(&ix.expr).unwrap();
+                let i = match self.eval(&ix.index, env)? { Val::Int { v, .. } if v >= 0 => v as usize, o => return Err(format!("mem::take of an element at {}", o.show())) };
+                match place_get_mut(env, &place) {
+                    Some(Val::List(l)) if i < l.len() => {
+                        let dflt = match &l[i] { Val::List(_) => Val::List(vec![]), Val::Str(_) => Val::Str(String::new()), Val::Int { .. } => Val::int(0), Val::Bool(_) => Val::Bool(false), o => return Err(format!("mem::take of {}", o.show())) };
+                        Ok(std::mem::replace(&mut l[i], dflt))
+                    }
+                    Some(Val::List(l)) => Err(format!("index {} of a list of {} (the code would panic here)", i, l.len())),
+                    _ => Err(format!("cannot resolve place {}", tok(&ix.expr))),
                 }
             }
             // std::mem::take(&mut place): yields the value and leaves the type's default behind
